@@ -2016,6 +2016,14 @@ func runEff3(m *Model, r *RuleResult) {
 		} else {
 			r.violation(key+":layerH-max", pos, "positioner must make Layer.H the maximum node height of the layer", "bands would be stacked with a height smaller than their tallest node (vertical overlap, wrong band spacing)")
 		}
+		// ... and does so on every path to a normal return (added after seeded change C03g: a "single column" fast path returned before
+		// the loop that records the band heights). Exits taken only for trivially small graphs (element count / nil tests) are tolerated.
+		if esc := layerHEscape(m, c); esc == "" {
+			r.holds(key+":layerH-always", pos, "every path to a normal return of the positioner passes the band-height reduction")
+		} else {
+			r.violation(key+":layerH-always", pos, "every path to a normal return of the positioner must pass the band-height reduction",
+				esc+": on this path Layer.H keeps its old value (0), the Y assignment stacks the bands as if their nodes had no height, and tall nodes overlap the band below")
+		}
 		// Y assignment reachable after the positioner
 		okY := false
 		for _, y := range ySites {
@@ -2082,6 +2090,87 @@ func runEff3(m *Model, r *RuleResult) {
 	if len(posSites) < 5 || len(rSites) < 4 {
 		r.undecided("sibling-count", m.Pos(p4.Pos()), "5 positioners and 4 routers confirmed by hand", fmt.Sprintf("found %d positioners, %d routers", len(posSites), len(rSites)))
 	}
+}
+
+// layerHEscape: a path from the entry of positioner f to a normal return that does not pass a band-height site (a store to Layer.H,
+// or a call of a module function that performs the reduction); "" if there is none. A site inside a loop is passed when the
+// outermost loop around it is reached (zero iterations = no layers).
+func layerHEscape(m *Model, f *ssa.Function) string {
+	if len(f.Blocks) == 0 {
+		return ""
+	}
+	loops := naturalLoops(f)
+	est := map[*ssa.BasicBlock]bool{}
+	eachInstr(f, func(in ssa.Instruction) {
+		site := false
+		switch x := in.(type) {
+		case *ssa.Store:
+			if fa, ok := x.Addr.(*ssa.FieldAddr); ok {
+				_, steps := fieldChain(fa)
+				site = locOfSteps(steps) == igLayer+".H"
+			}
+		case ssa.CallInstruction:
+			if c := x.Common().StaticCallee(); c != nil && inModule(c) && len(c.Blocks) > 0 {
+				site = hasLayerHMax(m, c, map[*ssa.Function]bool{})
+			}
+		}
+		if !site {
+			return
+		}
+		b := in.Block()
+		var outer *loopInfo
+		for _, l := range loopsContaining(loops, b) {
+			if outer == nil || len(l.Body) > len(outer.Body) {
+				outer = l
+			}
+		}
+		if outer != nil {
+			est[outer.Head] = true
+		} else {
+			est[b] = true
+		}
+	})
+	if len(est) == 0 {
+		return "" // reported by the layerH-max clause
+	}
+	type item struct {
+		b    *ssa.BasicBlock
+		from *item
+	}
+	seen := map[*ssa.BasicBlock]bool{}
+	queue := []*item{{b: f.Blocks[0]}}
+	for len(queue) > 0 {
+		it := queue[0]
+		queue = queue[1:]
+		if seen[it.b] || est[it.b] {
+			continue
+		}
+		seen[it.b] = true
+		if _, isRet := it.b.Instrs[len(it.b.Instrs)-1].(*ssa.Return); isRet {
+			trivial := false
+			var steps []string
+			for x := it; x != nil && x.from != nil; x = x.from {
+				if iff, ok := x.from.b.Instrs[len(x.from.b.Instrs)-1].(*ssa.If); ok {
+					if isCountOrNilTest(iff.Cond, 0) {
+						trivial = true
+					}
+					br := "true"
+					if len(x.from.b.Succs) == 2 && x.from.b.Succs[1] == x.b {
+						br = "false"
+					}
+					steps = append([]string{fmt.Sprintf("%s is %s at %s", iff.Cond.String(), br, m.Pos(iff.Cond.Pos()))}, steps...)
+				}
+			}
+			if trivial {
+				continue
+			}
+			return "return at " + m.Pos(it.b.Instrs[len(it.b.Instrs)-1].Pos()) + " reached via [" + strings.Join(steps, "; ") + "]"
+		}
+		for _, s := range it.b.Succs {
+			queue = append(queue, &item{b: s, from: it})
+		}
+	}
+	return ""
 }
 
 func hasLayerHMax(m *Model, f *ssa.Function, seen map[*ssa.Function]bool) bool {
